@@ -6,6 +6,7 @@ import LimnoriaModel.C15.ValidatorLemmas
 import LimnoriaModel.C15.NormLemmas
 import LimnoriaModel.C15.WrapLemmas
 import LimnoriaModel.C15.SaveLoadLemmas
+import LimnoriaModel.C15.ListLemmas
 namespace C15
 open Py
 
@@ -96,37 +97,24 @@ theorem lists_table_ok :
     Gen.Registry.spaceJoin = [' '] ∧ Gen.Registry.emptyListStr = [' '] ∧ Gen.Registry.commaJoin = [',', ' '] := by
   decide
 
-/-- Full statement (false on the pinned tree, see the counter-examples below):
-    `∀ k xs, ListClass.set k (ListClass.str k xs) = xs`.
-Proved part, space separated: every list of non-empty blank-free words — including the empty
-list — reloads to itself. -/
-theorem space_list_roundtrip_partial (xs : List Str) (h : ∀ e ∈ xs, Word e) :
-    ListClass.set .space (ListClass.str .space xs) = xs :=
-  space_roundtrip_aux lists_table_ok.1 lists_table_ok.2.1 xs h
+/-- **Lists reload** (after the fix of `SeparatedListOf.setValue` and of the comma splitter): for
+both list syntaxes and every list `setValue` accepts — the empty list included — `set(str(·))`
+gives the list back.  `setValue` accepts exactly the items its own syntax reads back as
+themselves; everything else is refused before anything is stored. -/
+theorem list_roundtrip (k : ListClass) (xs : List Str) (hacc : k.setValue xs = .ok xs) :
+    k.set (k.str xs) = .ok xs :=
+  list_roundtrip_aux lists_table_ok.1 lists_table_ok.2.1 lists_table_ok.2.2 k xs hacc
 
-/-- Proved part, comma separated: every non-empty list whose elements contain no comma and no
-blank at either end (empty elements and inner blanks are fine) reloads to itself. -/
-theorem comma_list_roundtrip_partial (xs : List Str) (hne : xs ≠ []) (h : ∀ e ∈ xs, CommaElt e) :
-    ListClass.set .comma (ListClass.str .comma xs) = xs :=
-  comma_roundtrip_aux lists_table_ok.2.2 xs hne h
+example : ListClass.comma.setValue ["a b".toList, "c:d".toList] = .ok ["a b".toList, "c:d".toList] ∧
+    ListClass.comma.setValue [] = .ok [] := by decide
 
-example : ∀ e ∈ ["#a".toList, "b\\".toList], Word e := by unfold Word; decide
-example : ["a b".toList, [], "c".toList] ≠ [] ∧ ∀ e ∈ ["a b".toList, [], "c".toList], CommaElt e := by
-  unfold CommaElt lstrip rstrip; decide
+/-- the empty comma separated list (formerly known finding C15-empty-comma-list) -/
+theorem comma_list_empty : ListClass.set .comma (ListClass.str .comma []) = .ok [] := by decide
 
-/-- counter-example (known finding C15-list-element-separator) -/
-theorem space_list_counterexample :
-    ListClass.set .space (ListClass.str .space ["a b".toList, "c".toList]) = ["a".toList, "b".toList, "c".toList] := by
-  decide
-
-/-- counter-example (known finding C15-empty-comma-list): the empty list reloads as `[' ']` -/
-theorem comma_list_empty_counterexample :
-    ListClass.set .comma (ListClass.str .comma []) = [" ".toList] := by
-  decide
-
-/-- counter-example (known finding C15-list-element-separator) -/
-theorem comma_list_counterexample :
-    ListClass.set .comma (ListClass.str .comma ["a,b".toList]) = ["a".toList, "b".toList] := by
+/-- items that could not be read back are refused (formerly C15-list-element-separator) -/
+theorem list_items_refused :
+    ListClass.space.setValue ["a b".toList, "c".toList] = .error ∧ ListClass.space.setValue [[]] = .error ∧
+    ListClass.comma.setValue ["a,b".toList] = .error ∧ ListClass.comma.setValue [" a".toList] = .error := by
   decide
 
 /-! ### the value tree: rejection is atomic, overrides are local, unset values follow -/
@@ -457,11 +445,13 @@ example : Storable (fun _ => false) .bool (.b false) "supybot.x".toList
   netsDistinct := by decide
   sorted := by unfold TreeSpec.Sorted; decide
 
-/-- counter-example outside `Storable` (`RT` fails: known finding C15-empty-comma-list): an empty
-comma separated list is a different tree after save + start -/
+/-- counter-example outside the normal form: an unset `#channel` child (created by a `get`, never
+assigned) is not written, so the tree that comes back lacks it (its value is still what
+`getSpecific` answers, by `fresh_child_inherits`) -/
 theorem save_load_counterexample :
-    saveLoad (fun _ => false) (.list .comma) (.l []) ⟨true, true⟩ "v".toList ⟨⟨.l [], true, [], []⟩, []⟩ =
-      .up ⟨⟨.l [" ".toList], true, [], []⟩, [("v".toList, " ".toList)]⟩ := by
+    saveLoad (fun _ => false) .bool (.b false) ⟨true, true⟩ "v".toList
+        ⟨⟨.b true, true, [], [("#a".toList, ⟨.b true, false⟩)]⟩, []⟩ =
+      .up ⟨⟨.b true, true, [], []⟩, [("v".toList, "True".toList)]⟩ := by
   decide +kernel
 
 /-! ### re-reading the file in the running process -/
